@@ -49,6 +49,15 @@ Proof. exact suffix_truncated. Qed.
 Theorem C12_schemas_wf : forallb (fun s => tlvs_wf (snd s)) persist_schemas = true.
 Proof. exact persist_schemas_wf. Qed.
 
+(** every hand-written write-side TLV block (write_tlv_fields! / encode_tlv_stream!) is paired with the
+    read-side block of the same file sharing its type numbers; for every TLV type on both sides the
+    place WRITTEN (`self.x.y`, `htlc.mpp_part.sender_intended_value`, ...) and the variable READ INTO have
+    the same normalised name, or the exact pair is in the pinned allowlist of legitimate renames
+    (tools/codec/persist_pins.json).  Regenerated every run: writing `value` into the slot read as
+    `sender_intended_value`, or reading two slots into each other's variables, fails this. *)
+Theorem C12_field_pins : forallb pin_ok persist_field_pins = true.
+Proof. exact persist_field_pins_ok. Qed.
+
 (** hence the framing of every one of them round-trips (field values as opaque byte strings) *)
 Theorem C12_framing_roundtrip_partial : forall pk name es vals rest, In (name, es) persist_schemas ->
   tlv_dom pk es vals = true -> len (tlv_enc es vals) < 2 ^ 64 ->
